@@ -134,6 +134,10 @@ func (index *GsfaReader) Get(
 			return nil, fmt.Errorf("error while reading linked log with next=%d: %w", next, err)
 		}
 		debugln("sigIndexes:", locations, "newNext:", newNext)
+		// a list is always appended after the list it links to: anything else is a corrupt log (and could loop forever)
+		if !newNext.IsZero() && newNext.Offset >= next.Offset {
+			return nil, fmt.Errorf("corrupt linked log: record at %d links forward to %d", next.Offset, newNext.Offset)
+		}
 		next = &newNext
 		for _, sigIndex := range locations {
 			if limit > 0 && len(allTransactionLocations) >= limit {
@@ -186,6 +190,9 @@ bigLoop:
 			return nil, fmt.Errorf("error while reading linked log with next=%v: %w", next, err)
 		}
 		debugln("sigIndexes:", locations, "newNext:", newNext)
+		if !newNext.IsZero() && newNext.Offset >= next.Offset {
+			return nil, fmt.Errorf("corrupt linked log: record at %d links forward to %d", next.Offset, newNext.Offset)
+		}
 		next = &newNext
 		for _, txLoc := range locations {
 			sig, err := fetcher(txLoc)
